@@ -6,6 +6,6 @@ Require Extraction.
 Require Import ExtrOcamlBasic.
 
 Extraction "../ocaml/gen/inv_model.ml"
-  summary iv_t iv_S iv_I iv_R column node_status get_statuses transform_SIR transform_SIS
+  possible_statuses summary iv_t iv_S iv_I iv_R column node_status get_statuses transform_SIR transform_SIS
   investigation_SIR investigation_SIS consistent consistent_b log_arrays log_inv
   Qred so_rows so_full fd_hist fd_trans.
